@@ -1468,3 +1468,21 @@ func specBalanced(n ast.Node) bool {
 //@   props X00
 //@   trusted
 //@   modifies nothing
+
+// ---------------------------------------------------------------------------
+// C04, statement parser: two places index a list that the grammar allows to be
+// empty - the expressions before an assignment token (`switch = {`), and the
+// values of the assignment after the semicolon of a switch header
+// (`switch x := 2; x++ {`, an increment has no values). Only these index
+// obligations are claimed; the rest of the two units needs parser invariants.
+// ---------------------------------------------------------------------------
+
+//@ func (*parsing).parseAssignment
+//@   props X00 C04
+//@   panics allowed
+//@   claim[C04] index[variables[0]]
+
+//@ func (*parsing).parseSwitch
+//@   props X00 C04
+//@   panics allowed
+//@   claim[C04] index[assignment.Rhs[0]]
